@@ -4,3 +4,4 @@ p=$1; shift
 git -C /repo apply $p || { echo "APPLY FAILED"; exit 2; }
 for id in "$@"; do /verif/bin/verif check $id --tier quick 2>&1 | grep -E "VIOLATION|KNOWN|^\[" ; done
 git -C /repo checkout -- .
+/verif/bin/verif regen >/dev/null
